@@ -6,6 +6,7 @@ import os, re, json, glob, shutil, sys
 rows = []
 for d in sorted(glob.glob('/tmp/seeds/C*/[123]')):
     ID, k = d.split('/')[-2], d.split('/')[-1]
+    PROP = re.sub(r'b$', '', ID)
     if not os.path.exists(d + '/patch.diff'):
         continue
     dst = f'/verif/seeded/{ID}-{k}'
@@ -35,7 +36,7 @@ for d in sorted(glob.glob('/tmp/seeds/C*/[123]')):
             ver['note'] = open(d + '/verify_note.txt').read().strip()
     checks = {}
     for ef in sorted(glob.glob(d + '/eval*.txt')):
-        prop = ID
+        prop = PROP
         m = re.match(r'.*eval-(C\d+)\.txt', ef)
         if m:
             prop = m.group(1)
@@ -45,9 +46,9 @@ for d in sorted(glob.glob('/tmp/seeds/C*/[123]')):
         runs = re.search(r'(C\d+ \w+: \d+ runs[^\n]*)', t)
         checks[prop] = {'exit': int(rc.group(1)) if rc else None, 'signatures': sigs, 'summary': runs.group(1)[:200] if runs else ''}
     caught = [p for p, c in checks.items() if c['exit'] == 1]
-    meta = {'property': ID, 'seed': f'{ID}-{k}', 'title': title, 'files_changed': files, 'needs_to_manifest': needs,
+    meta = {'property': PROP, 'seed': f'{ID}-{k}', 'title': title, 'files_changed': files, 'needs_to_manifest': needs,
             'confirmed_in_scratch_worktree': ver, 'checks_run': checks, 'caught_by': caught,
-            'how_to_apply': f'git -C /repo apply /verif/seeded/{ID}-{k}/patch.diff ; ./check {ID} quick ; git -C /repo checkout -- .  (or tools/eval_seed.sh {ID} /verif/seeded/{ID}-{k}/patch.diff quick 30, which uses a scratch worktree)'}
+            'how_to_apply': f'git -C /repo apply /verif/seeded/{ID}-{k}/patch.diff ; ./check {PROP} quick ; git -C /repo checkout -- .  (or tools/eval_seed.sh {PROP} /verif/seeded/{ID}-{k}/patch.diff quick 30, which uses a scratch worktree)'}
     json.dump(meta, open(dst + '/meta.json', 'w'), indent=1)
     ok = ver['demo_passes_on_clean_tree'] and ver['demo_fails_with_change'] and ver['suite_passes_with_change']
     sig = '; '.join(f"{p}: {', '.join(s.split('/',1)[1] for s in c['signatures'][:3])}" for p, c in checks.items() if c['exit'] == 1)
